@@ -71,6 +71,42 @@ def solve_text(txt, timeout, workdir, tag, try_cvc5=True, both=False):
     return res
 
 
+def discharge_texts(items, timeout=10, jobs=16, both=False):
+    """items: dicts with name, fn, kind, line, goal, nhyps, smt2 (text or None)"""
+    workdir = tempfile.mkdtemp(prefix='pyvc-')
+    results = [None] * len(items)
+
+    def work(i):
+        it = items[i]
+        if it.get('smt2') is None:
+            r = dict(verdict='unknown', solver='-', time=0.0, err='serialisation failed')
+        else:
+            r = solve_text(it['smt2'], timeout, workdir, f'q{i}', both=both)
+        r.update(name=it['name'], fn=it['fn'], kind=it['kind'], line=it['line'], goal=it['goal'], nhyps=it['nhyps'])
+        v = r['verdict']
+        r['status'] = 'proved' if v == 'unsat' else ('refuted' if v == 'sat' else 'undecided')
+        return i, r
+    with ThreadPoolExecutor(max_workers=jobs) as ex:
+        for i, r in ex.map(work, range(len(items))):
+            results[i] = r
+    try:
+        os.rmdir(workdir)
+    except OSError:
+        pass
+    return results
+
+
+def serialise(obligs, rounds=2):
+    out = []
+    for ob in obligs:
+        try:
+            txt = to_smt2(ob, (), rounds)
+        except Exception:
+            txt = None
+        out.append(dict(name=ob.name, fn=ob.fn, kind=ob.kind, line=ob.line, goal=str(ob.goal)[:400], nhyps=len(ob.hyps), smt2=txt))
+    return out
+
+
 def discharge(obligs, axioms=(), timeout=10, jobs=16, both=False, rounds=2, keep_text=False):
     """returns list of dict(name, verdict in proved|refuted|undecided, solver, time)"""
     workdir = tempfile.mkdtemp(prefix='pyvc-')
